@@ -130,11 +130,11 @@ class Executor:
     def run_plan(
         self, plan: ExecutionPlan, ctx: Context, stop_on_first_error: bool = False
     ):
+        start = time.time()
         try:
             self._reset()
             plan.reset_waiting_on()
             self._num_tasks_to_run = plan.num_tasks_to_run
-            start = time.time()
 
             # 1. Print out any cached tasks.
             for cached_task in plan.cached_tasks:
